@@ -235,42 +235,48 @@ impl SDJWTHolder {
             match (claim_to_disclose, sd_jwt_claims) {
                 (Value::Bool(true), Value::Object(sd_jwt_claims)) => {
                     if let Some(Value::String(digest)) = sd_jwt_claims.get(SD_LIST_PREFIX) {
-                        hash_to_disclosure
-                            .push(self.sd_jwt_engine.hash_to_disclosure[digest].to_owned());
+                        if let Some(disclosure) = self.sd_jwt_engine.hash_to_disclosure.get(digest)
+                        {
+                            hash_to_disclosure.push(disclosure.to_owned());
+                        }
                     }
                 }
                 (claim_to_disclose, Value::Object(sd_jwt_claims)) => {
                     if let Some(Value::String(digest)) = sd_jwt_claims.get(SD_LIST_PREFIX) {
-                        let disclosure = self.sd_jwt_engine.hash_to_decoded_disclosure[digest]
-                            .as_array()
-                            .ok_or(Error::ConversionError("json array".to_string()))?;
-                        match (claim_to_disclose, disclosure.get(1)) {
-                            (
-                                Value::Array(claim_to_disclose),
-                                Some(Value::Array(sd_jwt_claims)),
-                            ) => {
-                                hash_to_disclosure.push(
-                                    self.sd_jwt_engine.hash_to_disclosure[digest].clone()
-                                );
-                                hash_to_disclosure.append(
-                                    &mut self.select_disclosures_from_disclosed_list(
+                        if let Some(decoded) =
+                            self.sd_jwt_engine.hash_to_decoded_disclosure.get(digest)
+                        {
+                            let disclosure = decoded
+                                .as_array()
+                                .ok_or(Error::ConversionError("json array".to_string()))?;
+                            match (claim_to_disclose, disclosure.get(1)) {
+                                (
+                                    Value::Array(claim_to_disclose),
+                                    Some(Value::Array(sd_jwt_claims)),
+                                ) => {
+                                    hash_to_disclosure.push(
+                                        self.sd_jwt_engine.hash_to_disclosure[digest].clone()
+                                    );
+                                    hash_to_disclosure.append(
+                                        &mut self.select_disclosures_from_disclosed_list(
+                                            sd_jwt_claims,
+                                            claim_to_disclose,
+                                        )?,
+                                    );
+                                }
+                                (
+                                    Value::Object(claim_to_disclose),
+                                    Some(Value::Object(sd_jwt_claims)),
+                                ) => {
+                                    hash_to_disclosure
+                                        .push(self.sd_jwt_engine.hash_to_disclosure[digest].to_owned());
+                                    hash_to_disclosure.append(&mut self.select_disclosures(
                                         sd_jwt_claims,
-                                        claim_to_disclose,
-                                    )?,
-                                );
+                                        claim_to_disclose.to_owned(),
+                                    )?);
+                                }
+                                _ => {}
                             }
-                            (
-                                Value::Object(claim_to_disclose),
-                                Some(Value::Object(sd_jwt_claims)),
-                            ) => {
-                                hash_to_disclosure
-                                    .push(self.sd_jwt_engine.hash_to_disclosure[digest].to_owned());
-                                hash_to_disclosure.append(&mut self.select_disclosures(
-                                    sd_jwt_claims,
-                                    claim_to_disclose.to_owned(),
-                                )?);
-                            }
-                            _ => {}
                         }
                     } else if let Some(claim_to_disclose) = claim_to_disclose.as_object() {
                         hash_to_disclosure.append(
